@@ -160,7 +160,7 @@ fn rn_stmts(v: &mut Vec<Stmt>) {
                 rn_stmts(body);
             }
             Stmt::Read(ls) => ls.iter_mut().for_each(rn_lv),
-            Stmt::Label(l) | Stmt::Goto(l) | Stmt::Gosub(l) | Stmt::ResumeLabel(l) => *l = rn(l),
+            Stmt::Label(l) | Stmt::Goto(l) | Stmt::Gosub(l) | Stmt::ResumeLabel(l) | Stmt::ReturnTo(l) => *l = rn(l),
             Stmt::OnErrorGoto(Some(l)) => *l = rn(l),
             Stmt::CallSub(_, args) => args.iter_mut().for_each(rn_expr),
             Stmt::Dim(d) => d.name = rn(&d.name),
